@@ -171,7 +171,7 @@ class InitialMesh:
         return children
 
     def uniform_refine(self):
-        leaves = list(self.leaf_elements)
+        leaves = sorted(self.leaf_elements, key=lambda elem: elem.level)
         for elem in leaves:
             self.refine(elem)
 
